@@ -55,15 +55,15 @@ type Node struct {
 	Tag string
 }
 
-func NullN() *Node             { return &Node{Kind: Null} }
-func BoolN(b bool) *Node       { return &Node{Kind: Bool, B: b} }
-func IntN(i int64) *Node       { return &Node{Kind: Int, I: i} }
-func UintN(u uint64) *Node     { return &Node{Kind: Uint, U: u} }
-func FloatN(f float64) *Node   { return &Node{Kind: Float, F: f} }
-func StrN(s string) *Node      { return &Node{Kind: Str, S: s} }
-func TimeN(t time.Time) *Node  { return &Node{Kind: Time, T: t} }
+func NullN() *Node              { return &Node{Kind: Null} }
+func BoolN(b bool) *Node        { return &Node{Kind: Bool, B: b} }
+func IntN(i int64) *Node        { return &Node{Kind: Int, I: i} }
+func UintN(u uint64) *Node      { return &Node{Kind: Uint, U: u} }
+func FloatN(f float64) *Node    { return &Node{Kind: Float, F: f} }
+func StrN(s string) *Node       { return &Node{Kind: Str, S: s} }
+func TimeN(t time.Time) *Node   { return &Node{Kind: Time, T: t} }
 func SeqN(items ...*Node) *Node { return &Node{Kind: Seq, Items: append([]*Node{}, items...)} }
-func MapN(ordered bool) *Node  { return &Node{Kind: Map, Ordered: ordered} }
+func MapN(ordered bool) *Node   { return &Node{Kind: Map, Ordered: ordered} }
 
 func (n *Node) Put(k string, v *Node) *Node {
 	for i, kk := range n.Keys {
